@@ -85,6 +85,8 @@ def run(case, ctx, rng):
         after = (list(map(int, table_M1())), list(map(int, table_M2()[0])), list(map(int, table_M3())))
         ctx.check('M-tables-key-independent', before == after == (list(map(int, M1)), list(map(int, M2)), list(map(int, M3))), 'changed', 'identical for every key', **det)
         E = DES(K)
+        if case.get('j', 0) % 2 == 0:
+            call(E.dec, b'short'); call(E.enc, b'123456789')          # refused calls must not disturb the comparison object
         for B in blocks(rng, 4):
             got = call(W.enc, B)
             ctx.eq('wb==FIPS46-3', got, rdes.enc(K, B), B=B, **det)
